@@ -6,29 +6,6 @@ import IgrisModel.C02.ExcLemmas
 -/
 namespace Igris.C02
 
-/-- operations that grow the vector in place (the ones std::vector promises "no effects" for when the
-    allocation throws) -/
-def Op.growsInPlace : Op → Bool
-  | .reserve _ _ | .emplaceBack _ _ | .emplace _ _ _ | .insertSorted _ _ | .insertRange _ _ _ | .resize _ _ => true
-  | _ => false
-
-/-- the request (in elements) the call hands to `allocate`, read off sizes and capacities; `none` = the call
-    does not allocate -/
-def allocRequest (s : St) : Op → Option Nat
-  | .reserve r n => if (s.regs r).cap < n then some n else none
-  | .emplaceBack r _ | .emplace r _ _ | .insertSorted r _ =>
-    if (s.regs r).cap < (s.regs r).size + 1 then some ((s.regs r).size + 1) else none
-  | .insertRange r _ src =>
-    if src.count ≠ 0 ∧ (s.regs r).cap < (s.regs r).size + src.count then some ((s.regs r).size + src.count) else none
-  | .resize r n => if (s.regs r).cap < n then some n else none
-  | _ => none
-
-/-- does the armed failure strike this call? -/
-def allocFails (s : St) (af : AF) (op : Op) : Bool :=
-  match allocRequest s op with
-  | some q => af.hit 0 q
-  | none => false
-
 theorem set_self_regs (s : St) (r : Nat) (l : Ledger) (j : Nat) : (s.set r (s.regs r) l).regs j = s.regs j := by
   simp only [St.set]; split
   · next h => rw [h]
